@@ -32,6 +32,9 @@ DIRECT.setdefault('C05', {'api-error', 'read-vs-spec', 'scan-vs-spec', 'harness-
 INDIRECT.setdefault('C05', set())
 DIRECT.setdefault('C17', {'api-error', 'layout-mismatch', 'harness-crash'})
 INDIRECT.setdefault('C17', set())
+# the MANIFEST bytes replayed by the replica of ldb_versions_recover (ManifestReplay.v) vs the layout in memory
+DIRECT['C17'].add('manifest-replay-mismatch')
+DIRECT['C14'].add('manifest-replay-mismatch')
 
 def snapshot_only(p):
     """problem concerns a read at a snapshot (C06) rather than at the latest sequence (C01)"""
